@@ -65,6 +65,8 @@ def replay(beh: list[dict], variant: int) -> list[tuple[str, str]]:
             elif op == 'parent_indent':
                 parent.indent = ev['arg']
                 pind = ev['arg']
+            elif op == 'insert_comment':
+                parent.raw_meta_with_comments.insert(0, models.BlockComment.from_value('standalone', indent=ev['arg']))
             elif op == 'clear':
                 parent.raw_meta.clear()
             elif op.startswith('comment_'):
